@@ -61,14 +61,15 @@ theorem hostMedia_bytes (hf : HostFile) (h : HostFile.IsBytes hf) : MediaBytes (
 /-! ### `attachFile`, restated -/
 
 /-- the tail of `attachFile` shared by both kinds of image -/
-def connectCfgs (st : MainState) (r : Except RunRes (List DriveCfg)) (newMedias : List Media) (warn : Bool) :
-    Except RunRes MainState :=
+def connectCfgs (st : MainState) (r : Except RunRes (List DriveCfg)) (newMedias : List Media) (warn : Bool)
+    (img : Bytes) : Except RunRes MainState :=
   match r with
   | .error e => .error e
   | .ok ds =>
     match st.storage.connect ds st.policy with
     | none => .error { err := true, exit := 1 }
-    | some s' => .ok { st with storage := s', medias := st.medias ++ newMedias, verbose := st.verbose || warn }
+    | some s' => .ok { st with storage := s', medias := st.medias ++ newMedias, verbose := st.verbose || warn,
+                                images := st.images ++ [img] }
 
 /-- `attachFile` once the file is known to exist -/
 def attachBody (nd : Bool) (arg : Bytes) (hf : HostFile) (m : Media) (ld : Loader) (st : MainState) :
@@ -77,9 +78,9 @@ def attachBody (nd : Bool) (arg : Bytes) (hf : HostFile) (m : Media) (ld : Loade
   | .fail => .error { err := true, exit := 1 }
   | .abort s => .error { err := true, exit := 134, crash := some s }
   | .unmodelled w => .error { unmodelled := some w }
-  | .ok views warned => connectCfgs st (attachFile.cfgs nd m st.medias.length views) [m] warned
+  | .ok views warned => connectCfgs st (attachFile.cfgs nd m st.medias.length views) [m] warned arg
   | .flux sides noise =>
-    connectCfgs st (attachFile.fcfgs nd st.medias.length 0 sides) (sides.map (·.2)) noise
+    connectCfgs st (attachFile.fcfgs nd st.medias.length 0 sides) (sides.map (·.2)) noise arg
 
 theorem attachFile_eq (fs : HostFs) (nd : Bool) (arg : Bytes) (st : MainState) :
     attachFile fs nd arg st =
@@ -266,9 +267,9 @@ theorem connect_mem (s s' : Storage) (ds : List DriveCfg) (pol : Policy)
     subst h
     exact connectFirst_mem ds _ _ p hp
 
-theorem connectCfgs_ok (st : MainState) (r : Except RunRes (List DriveCfg)) (newMedias : List Media)
+theorem connectCfgs_ok {img : Bytes} (st : MainState) (r : Except RunRes (List DriveCfg)) (newMedias : List Media)
     (warn : Bool) (hst : StInv st) (hr : CfgsOk (st.medias ++ newMedias) r) :
-    EOk (connectCfgs st r newMedias warn) := by
+    EOk (connectCfgs st r newMedias warn img) := by
   unfold connectCfgs
   cases r with
   | error e => exact hr
@@ -443,8 +444,8 @@ theorem imageViews_flux_bytes (arg : Bytes) (hf : HostFile) (m : Media) (ld : Lo
       obtain ⟨s, hs, rfl⟩ := List.mem_map.mp hp
       exact hxcReadBlock_bytes s (loadHxc_ok _ _ _ hl s hs)
 
-theorem connectCfgs_NC (st : MainState) (r : Except RunRes (List DriveCfg)) (newMedias : List Media)
-    (warn : Bool) (hr : NC r) : NC (connectCfgs st r newMedias warn) := by
+theorem connectCfgs_NC {img : Bytes} (st : MainState) (r : Except RunRes (List DriveCfg)) (newMedias : List Media)
+    (warn : Bool) (hr : NC r) : NC (connectCfgs st r newMedias warn img) := by
   unfold connectCfgs
   cases r with
   | error e => exact hr
